@@ -767,4 +767,34 @@ theorem C19_normalizer_bool_necessary :
       .ok ("<!DOCTYPE html><div a".toList ++ ['\uff1c'] ++ "=\"a<\"></div>".toList) ∧
     ¬ BoolKept fullwidthNorm (htmlCtx c19BoolEnv {}) (genOutputs t []) := by decide
 
+/-- `serialize_write_with_normalizer`, the `Write` entry point called directly: `serialize_string_with_normalizer`
+    is its output collected in a `Vec` — when the write succeeds having written `w` the string variant returns
+    `w`, and conversely; the two fail together with the same error; and what reaches the sink always starts with
+    the doctype line (written before anything can fail). -/
+theorem C19_normalizer_write (N : Str → Str) (env : Env) (p : HtmlParams) (t : Tree) (start : Path) :
+    (∀ w, serializeHtmlWriteN N env p t start = (w, .ok ()) → serializeHtmlStringN N env p t start = .ok w) ∧
+    (∀ s, serializeHtmlStringN N env p t start = .ok s → serializeHtmlWriteN N env p t start = (s, .ok ())) ∧
+    (∀ e, (serializeHtmlWriteN N env p t start).2 = .err e ↔ serializeHtmlStringN N env p t start = .err e) ∧
+    (∃ body, (serializeHtmlWriteN N env p t start).1 = htmlDoctype ++ body) := by
+  unfold serializeHtmlStringN bufferToString
+  refine ⟨?_, ?_, ?_, ⟨_, rfl⟩⟩
+  · intro w h; rw [h]
+  · intro s h
+    cases hw : serializeHtmlWriteN N env p t start with
+    | mk w r =>
+      rw [hw] at h
+      cases r with
+      | ok u => cases u; simp at h; rw [h]
+      | err e => simp at h
+      | panic => simp at h
+  · intro e
+    cases hw : serializeHtmlWriteN N env p t start with
+    | mk w r =>
+      cases r with
+      | ok u => cases u; simp
+      | err e' => simp
+      | panic => simp
+
+example : serializeHtmlWriteN fullwidthNorm witnessEnv {} c19NormDoc [] = (c19NormText, .ok ()) := by decide
+
 end XotModel.Props
